@@ -1,5 +1,32 @@
 import ShellOp.Drv.Worker
-/-! Line-protocol suite for C03: the shared worker suite (`Drv/Worker`). -/
+import ShellOp.Model.Routing
+/-! Line-protocol suite for C03: the shared worker suite (`Drv/Worker`) plus the op `schedfan`
+(`Model/Routing`: the links map of the real schedule controller and the fan-out of one tick). -/
 namespace ShellOp.Drv.C03
-def suite := ShellOp.Drv.Worker.suite
+open ShellOp ShellOp.Util
+
+/-- `name/entry/crontab/queue`, queue `-` = no `queue` key -/
+def binding? (s : String) : Option Routing.SchedBinding :=
+  match s.splitOn "/" with
+  | [n, e, c, q] => some ⟨n, e, c, if q == "-" then "" else q⟩
+  | _ => none
+
+def sortStrs (l : List String) : List String := (l.toArray.qsort (· < ·)).toList
+
+def step (st : Worker.St) (toks : List String) : Worker.St × String :=
+  match toks with
+  | "schedfan" :: args =>
+    -- EnableScheduleBindings over the bindings the loader produced, then HandleEvent for one crontab:
+    -- the (binding, queue) infos, sorted (Go walks the map in any order)
+    match kv? "v" args, kv? "bs" args, kv? "tick" args with
+    | some v, some bs, some c =>
+      match (strList bs).mapM binding? with
+      | some bs =>
+        let out := Routing.handleEvent (Routing.enable (v == "v0") bs) c
+        (st, showStrs (sortStrs (out.map fun x => x.1 ++ "=" ++ x.2)))
+      | none => (st, "bad-op")
+    | _, _, _ => (st, "bad-op")
+  | _ => Worker.step st toks
+
+def suite : Suite Worker.St := { init := {}, step := step }
 end ShellOp.Drv.C03
